@@ -222,6 +222,7 @@ func run(c *ev.Ctx) {
 	typesFamily(e, true)
 	allOfFamily(e)
 	nestedAllOfFamily(e)
+	nestedOrFamily(e)
 	addPropsFamily(e)
 	shortcutFamily(e)
 }
@@ -567,6 +568,65 @@ func nestedAllOfFamily(c *enumCtx) {
 			}
 		}
 	}
+}
+
+// nestedOrFamily: unions whose alternatives are containers that hold unions themselves: while one alternative
+// of the outer union gives up on a lexeme, another one fans out into the alternatives of its inner union on
+// the same lexeme. Every pair of 8 alternative bodies as @A | @B (both orders, also as or rule and inside an
+// array), against documents built from the bodies' own examples and their neighbours.
+func nestedOrFamily(c *enumCtx) {
+	cd := func() *gen.Node { return gen.Ref("@C", "@D") }
+	bodies := []*gen.Node{
+		gen.Obj(gen.P("x", cd())),
+		gen.Obj(gen.P("y", gen.Int("1"))),
+		gen.Obj(gen.P("x", gen.Int("1")), gen.P("y", cd())),
+		gen.Arr(cd()),
+		gen.Arr(),
+		gen.Arr(gen.Int("1")),
+		gen.Obj(gen.P("x", gen.Arr(cd()))),
+		gen.Obj(gen.P("x", gen.Str(`"s"`).With(gen.RL("or", lit(`"@C"`), lit(`"@D"`), lit(`"boolean"`))))),
+	}
+	leaf := []sc.TypeDecl{{Name: "@C", Body: gen.Int("1")}, {Name: "@D", Body: gen.Str(`"s"`)}}
+	m := func(k string, v *gen.JV) gen.Member { return gen.Member{Key: k, Val: v} }
+	one, str, tr := gen.JInt("5"), gen.JStr(`"hello"`), gen.JBool("true")
+	var docs []*gen.JV
+	for _, v := range []*gen.JV{one, str, tr, gen.JNull(), gen.JArr(one), gen.JArr(str), gen.JArr(str, one), gen.JArr()} {
+		docs = append(docs, gen.JObj(m("x", v)), gen.JObj(m("y", v)), gen.JObj(m("x", one), m("y", v)), gen.JObj(m("y", v), m("x", one)), v, gen.JArr(v))
+	}
+	docs = append(docs, gen.JObj(), gen.JObj(m("z", one)))
+	for i, a := range bodies {
+		for j, b := range bodies {
+			if i == j {
+				continue
+			}
+			if !c.Mine() {
+				continue
+			}
+			types := append(append([]sc.TypeDecl{}, leaf...), sc.TypeDecl{Name: "@A", Body: a.Clone()}, sc.TypeDecl{Name: "@B", Body: b.Clone()})
+			c.visit(sc.Case{Root: gen.Ref("@A", "@B"), Types: types}, docs, "nested-or")
+			c.visit(sc.Case{Root: gen.Obj(gen.P("p", gen.Ref("@A", "@B")), gen.P("q", gen.Int("1").With(gen.R("optional", "true")))), Types: types}, wrapIn(docs, "p"), "nested-or")
+			if i < j {
+				c.visit(sc.Case{Root: gen.Arr(gen.Ref("@A", "@B")), Types: types}, arraysOf(docs), "nested-or")
+				c.Sample("nested-or", sc.Case{Root: gen.Ref("@A", "@B"), Types: types}.Describe())
+			}
+		}
+	}
+}
+
+func wrapIn(docs []*gen.JV, key string) []*gen.JV {
+	var out []*gen.JV
+	for _, d := range docs {
+		out = append(out, gen.JObj(gen.Member{Key: key, Val: d}), gen.JObj(gen.Member{Key: key, Val: d}, gen.Member{Key: "q", Val: gen.JInt("1")}))
+	}
+	return out
+}
+
+func arraysOf(docs []*gen.JV) []*gen.JV {
+	var out []*gen.JV
+	for i, d := range docs {
+		out = append(out, gen.JArr(d), gen.JArr(d, docs[(i+7)%len(docs)]))
+	}
+	return out
 }
 
 func addPropsFamily(c *enumCtx) {
